@@ -22,11 +22,19 @@ impl Flounder {
     pub fn uci_loop(&mut self) {
         loop {
             let mut command = String::new();
-            if std::io::stdin().read_line(&mut command).is_ok() {
-                command = command.trim().to_string();
-                if !command.is_empty() {
-                    self.handle_command(&command);
+            match std::io::stdin().read_line(&mut command) {
+                // End of input: stop instead of spinning
+                Ok(0) => break,
+                Ok(_) => {
+                    command = command.trim().to_string();
+                    if !command.is_empty() {
+                        self.handle_command(&command);
+                    }
                 }
+                // A line that is not valid UTF-8 is skipped like any unknown command
+                Err(e) if e.kind() == std::io::ErrorKind::InvalidData => {}
+                // Standard input is unreadable: nothing more will ever arrive
+                Err(_) => break,
             }
         }
     }
